@@ -79,6 +79,34 @@ func newStubImporter() *stubImporter {
 	outp := named(p, "OutPoint", strct(p, "Hash", hashT, "Index", u32))
 	named(p, "TxIn", strct(p, "PreviousOutPoint", outp, "SignatureScript", bs, "Sequence", u32))
 	named(p, "TxOut", strct(p, "Value", types.Typ[types.Int64], "PkScript", bs))
+	method := func(p *types.Package, recv *types.Named, name string, results []types.Type, params ...types.Type) {
+		var ps, rs []*types.Var
+		for i, t := range params {
+			ps = append(ps, types.NewParam(token.NoPos, p, fmt.Sprintf("a%d", i), t))
+		}
+		for _, t := range results {
+			rs = append(rs, types.NewParam(token.NoPos, p, "", t))
+		}
+		rv := types.NewParam(token.NoPos, p, "r", types.NewPointer(recv))
+		sig := types.NewSignatureType(rv, nil, nil, types.NewTuple(ps...), types.NewTuple(rs...), false)
+		recv.AddMethod(types.NewFunc(token.NoPos, p, name, sig))
+	}
+	bl := types.Typ[types.Bool]
+	u64 := types.Typ[types.Uint64]
+	// github.com/kkdai/bstream: an abstract bit stream
+	p = mk("github.com/kkdai/bstream", "bstream")
+	bst := named(p, "BStream", types.NewStruct(nil, nil))
+	method(p, bst, "ReadBit", []types.Type{bl, errT})
+	method(p, bst, "ReadBits", []types.Type{u64, errT}, in)
+	method(p, bst, "WriteBit", nil, bl)
+	method(p, bst, "WriteBits", nil, u64, in)
+	// container/list: abstract
+	p = mk("container/list", "list")
+	elT := named(p, "Element", types.NewStruct(nil, nil))
+	lst := named(p, "List", types.NewStruct(nil, nil))
+	method(p, lst, "PushBack", []types.Type{types.NewPointer(elT)}, anyT)
+	method(p, lst, "Remove", []types.Type{anyT}, types.NewPointer(elT))
+	method(p, lst, "Len", []types.Type{in})
 	// github.com/gcash/bchutil: type Amount int64
 	p = mk("github.com/gcash/bchutil", "bchutil")
 	named(p, "Amount", types.Typ[types.Int64])
@@ -107,6 +135,7 @@ const (
 	mList              // slice, array or string: Coq list of elem
 	mErr               // the error type (only in result position / err variables of the recognised patterns)
 	mUnit              // erased message string
+	mAbs               // abstract object (an imported struct behind a pointer, or an interface): a type parameter
 )
 
 type mtype struct {
@@ -115,6 +144,7 @@ type mtype struct {
 	elem  *mtype
 	str   bool // string (immutable)
 	sized bool // int8/int16/int32/int64: arithmetic wraps (int does not)
+	abs   string // name of the abstract type
 }
 
 func (t mtype) coq() string {
@@ -129,6 +159,8 @@ func (t mtype) coq() string {
 		return "list " + t.elem.coq()
 	case mUnit:
 		return "unit"
+	case mAbs:
+		return t.abs
 	}
 	return "?"
 }
@@ -162,6 +194,8 @@ func (t mtype) String() string {
 		return "[]" + t.elem.String()
 	case mErr:
 		return "error"
+	case mAbs:
+		return t.abs
 	}
 	return "unit"
 }
@@ -171,6 +205,34 @@ func isErrorType(t types.Type) bool {
 	return ok && n.Obj().Pkg() == nil && n.Obj().Name() == "error"
 }
 
+// abstract types: objects the translation does not look into.  Their methods become function parameters of
+// the generated definition (state-passing for the mutating ones).
+var abstractStructs = map[string]bool{
+	"github.com/kkdai/bstream.BStream": true,
+	"container/list.List":             true,
+	"container/list.Element":          true,
+}
+
+// methods of abstract struct types that do not change the object (all others are taken to mutate it);
+// methods of interfaces are taken to be pure
+var abstractPure = map[string]bool{
+	"List.Len": true, "List.Front": true, "List.Back": true,
+}
+
+func abstractName(t types.Type) string {
+	if p, ok := t.(*types.Pointer); ok {
+		if n, ok := p.Elem().(*types.Named); ok && n.Obj().Pkg() != nil && abstractStructs[n.Obj().Pkg().Path()+"."+n.Obj().Name()] {
+			return n.Obj().Name()
+		}
+	}
+	if n, ok := t.(*types.Named); ok && n.Obj().Pkg() != nil {
+		if i, isI := n.Underlying().(*types.Interface); isI && i.NumMethods() > 0 {
+			return n.Obj().Name()
+		}
+	}
+	return ""
+}
+
 // mt maps a Go type to a value type of the monadic mode
 func (c *m2) mt(t types.Type, at ast.Node) mtype {
 	if t == nil {
@@ -178,6 +240,9 @@ func (c *m2) mt(t types.Type, at ast.Node) mtype {
 	}
 	if isErrorType(t) {
 		return mtype{k: mErr}
+	}
+	if n := abstractName(t); n != "" {
+		return mtype{k: mAbs, abs: n}
 	}
 	switch u := t.Underlying().(type) {
 	case *types.Basic:
@@ -240,6 +305,14 @@ type fsig struct {
 	fallible bool // Coq result type is res
 	fuel     bool
 	consumes []bool // parameter i is used as the base of an append (result may share its array)
+	wfieldTy map[string]mtype
+	absTypes []string   // abstract types (implicit type parameters)
+	absMeths []absMeth  // their methods used (function parameters), in order of first use
+}
+
+type absMeth struct {
+	name string // T_M
+	coq  string // its Coq type
 }
 
 func (s *fsig) resType() string {
